@@ -1,0 +1,13 @@
+//go:build verif
+
+// Contracts for package parse (read by /verif/gowp; no executable code).
+package parse
+
+// End: the parser that accepts only the end of the input; it reads the
+// parser state and changes nothing.
+//@ func End
+//@   returns-closure
+//@ func End$1
+//@   requires e != nil
+//@   modifies nothing
+//@   ensures result == (e.Remaining == "")
